@@ -45,8 +45,8 @@ CLAIMED = {
             "Theorems C04_uint, C04_sint, C04_signed_range, C04_lsb_uint, C04_lsb_sint, C04_float_glue, C04_half_exhaustive (bound 2^16 stated), C04_ieee_value, C04_ieee_special, C04_carrier_faithful. partial: that struct.unpack implements the IEEE meaning, and the MIL-1750A pattern, are tied by the bit-exact correspondence (class boundaries, NaNs, subnormals, random).",
             "Trusted: Coq kernel+VM; Flocq 4.1 (its definitions depend on the standard library's real-number axioms, listed by Print Assumptions); struct.unpack.",
             "DESIGN.md section 4 C04"),
-    "C08": ("Coq proof (selection order context > default > raw; calibrated results are floats keeping the raw value; exact integer polynomials; step-spline segment choice, closed upper end, extrapolation rule; enumeration/boolean on raw only) + kernel-evaluated, bit-exact correspondence with calibrators and parse_value (Flocq binary64, CPython 3.12 compensated sum modelled)",
-            "Twelve theorems (Props/C08.v). partial: first-order spline values and float polynomials are tied to the code by bit-exact correspondence (every knot, both end points, midpoints, outside), not by a closed-form real-valued theorem; float ** n (n >= 2) is libm and excluded.",
+    "C08": ("Coq proof (selection order context > default > raw; calibrated results are floats keeping the raw value; exact integer polynomials; step-spline segment choice, closed upper end, extrapolation rule; first-order spline segment choice and exactness at its points (Flocq); enumeration/boolean on raw only) + kernel-evaluated, bit-exact correspondence with calibrators and parse_value (Flocq binary64, CPython 3.12 compensated sum modelled)",
+            "Sixteen theorems (Props/C08.v), including that a first-order spline returns, at each of its points, that point's calibrated value (real-valued statement over Flocq binary64, finite slope). partial: first-order spline values strictly inside a segment and float polynomials are tied to the code by bit-exact correspondence (every knot, both end points, midpoints, outside); float ** n (n >= 2) is libm and excluded.",
             "Trusted: Coq kernel+VM; Flocq 4.1 (+ standard-library real axioms); CPython float arithmetic and the built-in sum() algorithm as modelled. Genuine defect F5 found by this check and repaired by a fix: commit.",
             "DESIGN.md section 4 C08"),
     "C07": ("Coq proof (binary = left-padded bit slice; string raw buffer = bit slice right-padded with zeros, by bit-string lemmas; whole / first-terminator / leading-size text; cursor + computed length; first-match lookup; linear adjustment exact below 2^53 via Flocq Bmult/Bplus/Btrunc correctness) + kernel-evaluated correspondence with String/BinaryDataEncoding.parse_value over 8 charsets",
